@@ -35,6 +35,13 @@ class LenientInterp(Interp):
         k = op.get("k") if isinstance(op, dict) else None
         if k and k.get("ty") == "char" and "bits" in k:
             return BV.const(32, False, int(k["bits"]))
+        if k and re.fullmatch(r"&?\[char; \d+\]", k.get("ty", "")):
+            # a constant table of characters (`const OPERATORS: [char; 3]`)
+            raw = (k.get("alloc_chain") or [None])[-1] or k.get("alloc")
+            if raw:
+                bs = bytes.fromhex(raw)
+                v = Tup([BV.const(32, False, int.from_bytes(bs[i:i + 4], "little")) for i in range(0, len(bs), 4)])
+                return Ref(v) if k["ty"].startswith("&") else v
         return Interp.read_op(self, body, env, op, sg, want_ty)
 
     def rvalue(self, body, env, st, sg, depth):
@@ -78,6 +85,29 @@ class LenientInterp(Interp):
             if pos < self.nchars:
                 return [(s2, cons, excl, Enum("std::option::Option", "Some", {"0": BV.var("c%d" % pos, 32, False)}))]
             return [(s2, cons, excl, Enum("std::option::Option", "None", {}))]
+        if re.search(r"<impl \[T\]>::contains$", decl) and len(args) == 2:
+            tbl, item = unref(args[0]), unref(args[1])
+            if isinstance(tbl, Tup) and all(isinstance(x, BV) and x.is_const() for x in tbl.items) and isinstance(item, BV):
+                vals = [x.value() for x in tbl.items]
+                item = item.subst(sg)
+                if item.is_const():
+                    return [(sg, cons, excl, BV.const(1, False, 1 if item.value() in vals else 0))]
+                nm = item.whole_var()
+                if nm:
+                    out = []
+                    banned = set()
+                    for (xb, xv) in excl:
+                        if isinstance(xb, BV) and xb.whole_var() == nm:
+                            banned |= set(xv)
+                    for v in vals:
+                        if v in banned:
+                            continue
+                        s2 = dict(sg)
+                        for b in range(item.w):
+                            s2[(nm, b)] = (v >> b) & 1
+                        out.append((s2, cons, excl, BV.const(1, False, 1)))
+                    out.append((sg, cons, excl + [(item, vals)], BV.const(1, False, 0)))
+                    return out
         m = re.search(r"^std::option::Option::<.*>::(is_some|is_none|is_some_and|is_none_or)$", decl)
         if m and args:
             o = unref(args[0])
